@@ -13,6 +13,7 @@ def run(chk):
     hobl.c12_step(chk, ex)
     from . import strategies
     strategies.strategy_contract(chk, "C13", "wait")
+    strategies.small_factories(chk, "C13")
     from . import c15
     # "exactly the state its previous poll returned (as restored by the configured serialization)": with the default serializer the restored state
     # is an equal, FRESH value - not an object another poll (or an earlier delivery of the same text) may have mutated
